@@ -293,7 +293,8 @@ func (db *DB) basicExport(ctx context.Context, config *client.BackupConfig) (err
 								}
 
 								delete(oldForeignDoc, request.DocIDFieldName)
-								if foreignDoc.ID().String() == foreignDocID.String() {
+								if foreignDoc.ID().String() == doc.ID().String() {
+									// self reference: the new docID is computed without the reference
 									delete(oldForeignDoc, field.Name+request.RelatedObjectID)
 								}
 
